@@ -31,3 +31,12 @@ Fixpoint or_with_valueless (f : expr) (ev : event) : bool :=
   | ENot g => or_with_valueless g ev
   | _ => false
   end.
+
+(* C08 known finding C08-binop-mixed-le-ge: `<=` / `>=` between an Int and a Float evaluated through
+   eval_binary_op (eval_pattern_expr, i.e. the `.pattern(..)` matcher). That function has no arm for it
+   (two existing tests pin `eval_binary_op(Ge|Le, Int, Float) == None`), so the comparison has no value. *)
+Definition binop_mixed_le_ge (f : fn) (o : cop) (lt rt : vty) : bool :=
+  match f, o, lt, rt with
+  | FBinop, (OLe | OGe), TInt, TFloat | FBinop, (OLe | OGe), TFloat, TInt => true
+  | _, _, _, _ => false
+  end.
